@@ -231,5 +231,6 @@ class RSAKey(PKey):
                 raise SSHException("Invalid RSA private key: {}".format(e))
         else:
             self._got_bad_key_format_id(pkformat)
-        assert isinstance(key, rsa.RSAPrivateKey)
+        if not isinstance(key, rsa.RSAPrivateKey):
+            raise SSHException("not a valid RSA private key file")
         self.key = key
